@@ -199,7 +199,9 @@ func main() {
 			"gap (n<=3); RANDOM (seeded): trees of 3..12 delivered proposals (chains with forks, bushy, uniform, competing long branches; optional view gaps), all call kinds shuffled with "+
 			"four disorder levels, duplicates, undelivered parents, weak justifies, votes from members / the node itself in any order relative to the proposal. After EVERY call the real "+
 			"structure (tree from Root + every orphan-list element) is walked and compared with a model written from the statement. A case is distinct by (family, start form, call "+
-			"sequence, tree) up to renaming of proposals; non-trivial = some proposal arrived before its parent, or a fork, a root move, an applied rollback or a vote quorum occurred")
+			"sequence, tree) up to renaming of proposals; non-trivial = some proposal arrived before its parent, or a fork, a root move, an applied rollback or a vote quorum occurred. "+
+			"CONCURRENT DUPLICATES: long-lived nodes receive one fresh proposal per round as k = 2..4 overlapping copies of ONE signed message (k goroutines released by a start barrier into the "+
+			"real handler), optionally followed by the confirmed block; when all handlers have returned the same walk + model judge the structure (stored exactly once, tree, markers, root, pacemaker)")
 	sn.InitLogs()
 	mat := newMaterial()
 	if r.Replay != "" {
@@ -226,6 +228,8 @@ func main() {
 	fmt.Fprintf(os.Stderr, "c15: random part done at %.1fs\n", time.Since(t0).Seconds())
 
 	co.report()
+	duplicatePart(r, mat)
+	fmt.Fprintf(os.Stderr, "c15: concurrent duplicate part done at %.1fs\n", time.Since(t0).Seconds())
 	if !r.Quick() {
 		concurrentPart(r)
 		fmt.Fprintf(os.Stderr, "c15: concurrent part done at %.1fs\n", time.Since(t0).Seconds())
@@ -267,7 +271,8 @@ func main() {
 	r.Floor("pacemaker.advanced", 5000)
 	r.Floor("certified-in-tree.vote", 200)
 	r.Floor("certified-in-tree.justify", 200)
-	r.Assume("the message handlers are called synchronously through the verif-tagged wrappers (export_verif.go); the network loop starts them as goroutines that mutate the tree without a lock - concurrent executions are not part of this verdict")
+	r.Assume("the message handlers are called synchronously through the verif-tagged wrappers (export_verif.go); the network loop starts them as goroutines that mutate the tree without a lock - concurrent executions of DIFFERENT messages are not part of this verdict (thorough tier: open finding); overlapping copies of ONE proposal message are (part concurrent duplicates)")
+	r.Assume("concurrent duplicates: only copies of the same proposal overlap, its parent is stored in the tree, the ledger side confirms between rounds; the schedule of the copies is the machine's (start barrier, optional stagger by spin count), so a replay re-runs the world's choices, not the interleaving")
 	r.Assume("'accepted' for a proposal message = the proposal became reachable (tree or orphans) during the call; refusals by the safety rules / ledger-state window are not judged")
 	r.Assume("proposal views strictly increase from parent to child (view = height except in the gapped-views family); a proposal whose chain contains a proposal at or below the root's view, or a pruned one, may be dropped or kept (lazy eviction is allowed)")
 	r.Assume("a CommitQC equal to the current root is accepted although it is not the third ancestor of HighQC: InitQCTree starts with CommitQC = Root = HighQC and the root is the last committed proposal")
@@ -282,12 +287,20 @@ func replay(r *ev.Run, mat *material) {
 	buf, err := ioutil.ReadFile(r.Replay)
 	var doc struct {
 		Signature string `json:"signature"`
+		Seed      int64  `json:"seed"`
 		Witness   struct {
-			Case *Case `json:"case"`
+			Case  *Case  `json:"case"`
+			Part  string `json:"part"`
+			World int    `json:"world"`
 		} `json:"witness"`
 	}
 	if err == nil {
 		err = json.Unmarshal(buf, &doc)
+	}
+	if err == nil && doc.Witness.Part == "concurrent-duplicate" {
+		replayDup(r, mat, doc.Seed, doc.Witness.World)
+		sn.CleanupScratch()
+		r.Finish()
 	}
 	if err != nil || doc.Witness.Case == nil {
 		r.Inconclusive(fmt.Sprintf("cannot read replay file %s: %v", r.Replay, err))
